@@ -232,16 +232,6 @@ func NewSchemaComponent(name string, schema Schema, cs Componenter, cfg Config) 
 		IsRenderFormatMethod: isFormatter,
 	}
 
-	if schema.Ref != nil {
-		// a component that is only a reference to an object or array component:
-		// a defined type (`type A B`) would not have B's MarshalJSON / UnmarshalJSON
-		// and would be encoded by reflection, under the Go field names
-		switch schema.Ref.Schema.Kind() {
-		case SchemaKindObject, SchemaKindArray:
-			sc.IsAlias = true
-		}
-	}
-
 	switch schema := schema.Type.(type) {
 	case RawBytesType:
 		sc.IsAlias = true
@@ -264,8 +254,28 @@ func NewSchemaComponent(name string, schema Schema, cs Componenter, cfg Config) 
 	return sc
 }
 
+// refersToCodecComponent: the component is only a reference to an object or
+// array component. A defined type (`type A B`) would not have B's MarshalJSON /
+// UnmarshalJSON and would be encoded by reflection, under the Go field names;
+// such a component is a type alias. (Decided when rendering: the referenced
+// component may be built after this one.)
+func (s SchemaComponent) refersToCodecComponent() bool {
+	if s.Schema.Ref == nil {
+		return false
+	}
+	base := s.Schema.Ref.Schema.Base()
+	if base.Type == nil {
+		return false
+	}
+	switch base.Type.Kind() {
+	case SchemaKindObject, SchemaKindArray:
+		return true
+	}
+	return false
+}
+
 func (s SchemaComponent) Render() (string, error) {
-	if s.IsAlias {
+	if s.IsAlias || s.refersToCodecComponent() {
 		return ExecuteTemplate("SchemaComponent_Alias", struct {
 			Name        string
 			Description string
